@@ -21,6 +21,8 @@ pub struct MsgRef {
 pub struct Stream {
     pub bytes: Vec<u8>,
     pub msgs: Vec<MsgRef>,
+    /// frames that belong to segmented (k/n numbered) messages
+    pub segment_groups: usize,
 }
 
 #[derive(Clone, Debug)]
@@ -124,9 +126,32 @@ pub fn build_stream(tape: &mut Tape, opts: &StreamOpts) -> Stream {
     let mut r = tape.fork();
     let mut s = Stream::default();
     let seq0 = tape.draw(60000) as u16;
-    for i in 0..n {
+    let mut i = 0;
+    while i < n {
         let mtype = draw_type(tape, opts.t31_percent);
+        if mtype != 31 && mtype != 5 && mtype != 2 && tape.draw(4) == 3 {
+            // a segmented metadata message: frames 1/k .. k/k of the same type, back to back
+            let k = 2 + tape.draw(4) as u16;
+            for j in 1..=k {
+                if i >= n {
+                    break;
+                }
+                let off = s.bytes.len();
+                let mut body = vec![0u8; FRAME_BODY];
+                r.fill(&mut body);
+                let seq = seq0.wrapping_add(i as u16);
+                let bytes = icd::frame_seg(&mut r, mtype, seq, &body, k, j);
+                let date = u16::from_be_bytes([bytes[18], bytes[19]]);
+                let time_ms = u32::from_be_bytes([bytes[20], bytes[21], bytes[22], bytes[23]]);
+                s.bytes.extend_from_slice(&bytes);
+                s.msgs.push(MsgRef { off, len: FRAME, mtype, seq, date, time_ms, t31: None, vcp_cuts: None });
+                s.segment_groups += 1;
+                i += 1;
+            }
+            continue;
+        }
         push_message(&mut s, tape, &mut r, mtype, seq0.wrapping_add(i as u16), opts);
+        i += 1;
     }
     s
 }
@@ -171,8 +196,20 @@ pub fn build_volume_inner(tape: &mut Tape, max_records: usize, opts: &StreamOpts
         v.messages += s.msgs.len();
         v.radials += s.msgs.iter().filter(|m| m.mtype == 31).count();
         if inner_faults && !s.bytes.is_empty() {
-            match tape.weighted(&[3, 2, 2, 2]) {
+            match tape.weighted(&[3, 2, 2, 2, 1]) {
                 0 => {}
+                4 => {
+                    // a payload that itself looks like a compressed record: "BZ" where a record's
+                    // magic would sit, or the whole record compressed twice
+                    if tape.draw(2) == 0 && s.bytes.len() >= 6 {
+                        s.bytes[4] = b'B';
+                        s.bytes[5] = b'Z';
+                        notes.push(format!("record {}: payload bytes 4..6 := \"BZ\" before compression", ri));
+                    } else {
+                        s.bytes = icd::ldm_record(&s.bytes, false);
+                        notes.push(format!("record {}: compressed twice", ri));
+                    }
+                }
                 3 => {
                     // field-directed extremes inside an otherwise intact payload
                     let k = 1 + tape.draw(2);
@@ -231,6 +268,19 @@ pub fn extreme(tape: &mut Tape, s: &mut Stream) -> Option<String> {
         if let Some(n) = vcp_extreme(tape, s) {
             return Some(n);
         }
+    }
+    if !s.msgs.is_empty() && tape.draw(8) == 7 {
+        // the variable-length marker together with extreme segment fields, on any message type
+        let mi = tape.draw(s.msgs.len() as u64) as usize;
+        let base = s.msgs[mi].off;
+        let sc = [0u16, 0, 1, 0xFFFF, 9][tape.draw(5) as usize];
+        let sn = [0u16, 0, 1, 0xFFFF, 2432, 28][tape.draw(6) as usize];
+        if base + 28 <= s.bytes.len() {
+            s.bytes[base + 12..base + 14].copy_from_slice(&0xFFFFu16.to_be_bytes());
+            s.bytes[base + 24..base + 26].copy_from_slice(&sc.to_be_bytes());
+            s.bytes[base + 26..base + 28].copy_from_slice(&sn.to_be_bytes());
+        }
+        return Some(format!("message {} (type {}): size := 65535 (variable-length marker), segment count := {}, segment number := {}", mi, s.msgs[mi].mtype, sc, sn));
     }
     let idx: Vec<usize> = s.msgs.iter().enumerate().filter(|(_, m)| m.t31.is_some()).map(|(i, _)| i).collect();
     if idx.is_empty() {
